@@ -32,6 +32,9 @@ def signature(rec):
         if s.get("ok", True) and rec["kind"] == "replay":
             continue
         o = s["ao"]
+        if o["res"] == "joined":
+            d = differs(s["q"], o["owner"])
+            return "miss-answered-by-another-querys-exchange:differs-in=" + ("+".join(d) or "nothing")
         if s["q"].get("k", "std") != "std" and o["res"] not in ("bypass", "anomaly"):
             return "bypass-kind-%s-answered-from-cache-or-stored" % s["q"]["k"]
         if o["res"] == "hit":
@@ -51,7 +54,7 @@ def signature(rec):
 def trace_of(rec, lazy=0):
     t = [cl.ev_reset(lazy, loose=[1])]
     for s in rec["steps"]:
-        t.append(cl.ev_exec(1, s["q"], RESP, s["sid"], s["ao"]))
+        t.append(cl.ev_exec(1, s["q"], s.get("r") or RESP, s["sid"], s["ao"]))
     return t
 
 
@@ -83,6 +86,22 @@ def judge_lazy(ctx, recs, job):
     return acc, rej
 
 
+def judge_restart(ctx, recs, job):
+    acc, rej = vlib.validate_traces(ctx, "CachePlugin_Trace", "CachePlugin_Trace.cfg", [r["events"] for r in recs], label="C04 dump/reload")
+    for idx, info in rej:
+        r = recs[idx]
+        e = info.get("event") or {}
+        sig = "dump-reload:%s-rejected" % e.get("ev")
+        if e.get("ev") == "Exec" and e["o"]["res"] == "hit":
+            d = differs(e["q"], e["o"]["owner"])
+            sig = "hit-for-different-question:after-dump-reload:differs-in=" + ("+".join(d) or "answer")
+        j = {"mode": "c04", "c04": {"behaviours": [], "maps": job["c04"]["maps"], "restart_beh": [job["c04"]["restart_beh"][r["beh"]]],
+                                    "restart_maps": [r["step"]]}}
+        ctx.violation(sig, "real run with GET /dump + POST /load_dump (%s) is not a behaviour of CachePlugin.tla satisfying NoSharing: rejected at "
+                      "event %s: %s" % (r["tag"], info.get("line_in_trace"), json.dumps(e)[:400]), {"restart_job": j, "events": r["events"][:14]})
+    return acc, rej
+
+
 def judge(ctx, recs, what):
     """leg C on detailed records; every rejected trace is a deviation of the real code."""
     traces = [trace_of(r) for r in recs]
@@ -90,7 +109,9 @@ def judge(ctx, recs, what):
     for idx, info in rej:
         r = recs[idx]
         sig = signature(r)
-        if r["kind"] != "replay":
+        if r["kind"] == "overlap":
+            sig += ":overlapping-queries"
+        elif r["kind"] != "replay":
             sig += ":%s-sweep" % r["tag"].split("-")[1] if r["kind"] == "sweep" else ":mass"
         ctx.violation(sig, "real cache.Exec run is not a behaviour of CachePlugin.tla satisfying NoSharing "
                            "(map %s, rejected at event %s: %s)" % (r.get("tag"), info.get("line_in_trace"),
@@ -102,6 +123,12 @@ def judge(ctx, recs, what):
 def replay(ctx):
     d = json.load(open(ctx.replay))["replay"]
     binary = vlib.go_build(ctx, "drv_cache")
+    if "restart_job" in d:
+        out, _ = vlib.run_driver(ctx, binary, stdin_obj=d["restart_job"])
+        tr = [r for r in out if r["kind"] == "trace" and not r["slow"]]
+        ctx.cov["evaluations"] = len(tr)
+        judge_restart(ctx, tr, d["restart_job"])
+        return
     if "lazy_job" in d:
         out, _ = vlib.run_driver(ctx, binary, stdin_obj=d["lazy_job"])
         tr = [r for r in out if r["kind"] == "trace" and not r["slow"]]
@@ -112,8 +139,11 @@ def replay(ctx):
     steps = [{"a": "Exec", "i": 1, "q": s["q"], "r": RESP, "o": {"res": "na", "owner": s["q"], "id": 0}} for s in rec["steps"]]
     m = rec.get("mapv") or d.get("map")
     job = {"mode": "c04", "c04": {"behaviours": [{"lazy": 0, "steps": steps}], "maps": [m], "detail": True}}
+    if rec.get("kind") == "overlap":
+        job["c04"]["pairs"] = [[0, 0]]
+        job["c04"]["overlap"] = [[0, 0]] * 5
     out, _ = vlib.run_driver(ctx, binary, stdin_obj=job)
-    recs = [r for r in out if r["kind"] == "replay"]
+    recs = [r for r in out if r["kind"] in (("overlap",) if rec.get("kind") == "overlap" else ("replay",))]
     for r in recs:
         r["mapv"] = m
     ctx.cov["evaluations"] = len(recs)
@@ -224,11 +254,43 @@ def run(ctx):
     if len(gl) < 20:
         raise vlib.Infra("lazy generator produced only %d usable behaviours" % len(gl))
 
+    # overlapping queries: every ordered pair with the same name/type/class (equal or different flags) + seeded other pairs, held
+    # inside `next` so that both are in flight at once
+    same_ntc = [bi for bi in range(len(g2)) if all(g2[bi]["steps"][0]["q"][k] == g2[bi]["steps"][1]["q"][k] for k in ("n", "t", "c"))]
+    other = rng.sample([bi for bi in range(len(g2)) if bi not in set(same_ntc)], 300)
+    flagmaps = [mi for mi, mp in enumerate(maps) if mp["tag"].startswith(("flags:", "optpos:"))]
+    overlap = [(bi, mi) for bi in same_ntc + other for mi in (rng.sample(flagmaps, 6 if T else 2) + [0])]
+    # dump / reload between the operations (two instances)
+    RS = dict(Names='{"n1"}', Types='{"t1", "t2"}', Classes='{"c1"}', Flags="{0}", Insts="{1, 2}", OpKinds='{"exec", "dump", "load"}')
+    vlib.tlc_mc(ctx, SPEC, "c04_restart.cfg", cfg_text=cl.cfg(MaxOps="7" if T else "6", **RS), label="C04 design: dump/reload between operations")
+    gr = vlib.tlc_behaviours(ctx, SPEC, "gen_restart.cfg", cfg_text=cl.cfg(gen=True, MaxOps="5", **RS), label="C04 gen: dump/reload (exhaustive)")
+
+    def restart_ok(b):
+        st = b["steps"]
+        kinds = [s["a"] for s in st]
+        if "Dump" not in kinds or "Load" not in kinds:
+            return False
+        d0 = kinds.index("Dump")
+        if "Load" not in kinds[d0:]:
+            return False
+        l0 = d0 + kinds[d0:].index("Load")
+        stored = {cl.beh_key(s["q"]) for s in st[:d0] if s["a"] == "Exec" and s["i"] == st[d0]["i"]}
+        # at least two different stored questions, and one of them looked up on the reloaded instance
+        return len(stored) >= 2 and any(s["a"] == "Exec" and s["i"] == st[l0]["j"] and cl.beh_key(s["q"]) in stored for s in st[l0:])
+    gr = [b for b in gr if restart_ok(b)]
+    rng.shuffle(gr)
+    gr = gr[:400 if T else 60]
+    if len(gr) < 8:
+        raise vlib.Infra("dump/reload generator produced only %d usable behaviours" % len(gr))
+    rmaps = [0] + rng.sample(range(len(maps)), 24 if T else 7)
+
     binary = vlib.go_build(ctx, "drv_cache")
     job = {"mode": "c04", "c04": {"behaviours": behs, "maps": maps, "pairs": pairs, "detail": False, "sweeps": sweeps, "mass": mass,
-                                  "lazy_beh": gl, "lazy_map": cl.plain_map(), "lazy_rounds": 2 if T else 1}}
+                                  "lazy_beh": gl, "lazy_map": cl.plain_map(), "lazy_rounds": 2 if T else 1,
+                                  "overlap": overlap, "restart_beh": gr, "restart_maps": rmaps}}
     recs, _ = vlib.run_driver(ctx, binary, stdin_obj=job, timeout=1500)
-    lazy_tr = [r for r in recs if r["kind"] == "trace" and not r["slow"]]
+    restart_tr = [r for r in recs if r["kind"] == "trace" and not r["slow"] and r["tag"].startswith("restart:")]
+    lazy_tr = [r for r in recs if r["kind"] == "trace" and not r["slow"] and not r["tag"].startswith("restart:")]
     recs = [r for r in recs if r["kind"] != "trace"]
     summ = [r for r in recs if r["kind"] == "summary"]
     if len(summ) != 1:
@@ -255,7 +317,12 @@ def run(ctx):
             r["mapv"] = maps[r["map"]]
     acc, rej = judge(ctx, det + worst, "C04 replays")
     acc2, rej2 = judge_lazy(ctx, lazy_tr, job)
-    rej = rej + rej2
+    acc3, rej3 = judge_restart(ctx, restart_tr, job)
+    rej = rej + rej2 + rej3
+    if not rej3 and len(restart_tr) < len(gr) * len(rmaps) * 3 // 4:
+        raise vlib.Infra("dead dump/reload leg: %d traces for %d behaviours x %d maps" % (len(restart_tr), len(gr), len(rmaps)))
+    ctx.cov["dump_reload_runs"] = len(restart_tr)
+    ctx.cov["overlapping_pairs"] = len(overlap)
     if not rej2:
         nbg = sum(r.get("extra", {}).get("background", 0) for r in lazy_tr)
         if len(lazy_tr) < len(gl) or nbg < len(lazy_tr) // 2:
